@@ -21,6 +21,7 @@ import (
 	"github.com/getkin/kin-openapi/openapi3"
 	"github.com/getkin/kin-openapi/openapi3filter"
 	"github.com/getkin/kin-openapi/routers"
+	"github.com/oasdiff/yaml"
 
 	"kinverif/internal/hx"
 )
@@ -32,8 +33,9 @@ func init() {
 			"(none, empty requirement, undeclared scheme, one/two schemes, alternatives) × all 16 (reads body, verdict) vectors of two callbacks × missing callback × skip-defaults × multi-error; " +
 			"(B) one parameter: 3 locations × 5 schema types × 4 defaults × 6 presences × 3 explode settings × required × skip-defaults, plus pairs; " +
 			"(C) body schemas from a grammar (objects with defaulted / nullable / readOnly / required properties, nested objects, arrays of objects, allOf/oneOf/anyOf over a branch pool) × a pool of bodies; " +
-			"(D) 14 Content-Type headers (parameters, case, +json family, text/plain, unknown, empty) × 9 declared content sets (exact, with parameters, wildcards, several, none, schema-less) × 5 bodies; " +
+			"(D) 18 Content-Type headers (parameters, case, +json family, YAML, text/plain, unknown, empty) × 11 declared content sets (exact, with parameters, wildcards, several, none, schema-less, YAML) × 5 bodies; " +
 			"(E) path-item parameters × 6 kinds of operation-level redeclaration × presence × ExcludeRequestQueryParams; (F) parameter schemas whose type and default sit inside allOf; (G) parameters described by content; " +
+			"(H) a property present with the value null: 2 types × nullable × default × readOnly × required × 5 bodies × top level / nested / array item / anyOf, oneOf, allOf branch × options; " +
 			"every block is additionally run with Content-Type parameters and with document-level security in turn; " +
 			"then a seeded random stream combining random schemas (depth ≤ 3, structured defaults), schema-directed values, random path-item and operation parameters, media types and security. " +
 			"A case is non-trivial when the model reports at least one non-default branch.",
@@ -49,7 +51,8 @@ func init() {
 			"defaults are scalars or arrays of scalars (an object default is inserted by reference and would be mutated inside the shared document: that is C15's subject)",
 			"ContentLength is compared only when the incoming value was known (≥ 0); an unchanged body that is re-encoded compares equal as JSON",
 			"authentication callbacks either leave the body alone or read it to the end",
-			"media types other than application/json are generated only with composition-free schemas (whether a default set inside a discarded oneOf/anyOf candidate triggers the re-encoding is not modelled; only application/json tolerates an unnecessary re-encoding)",
+			"media types WITHOUT a body encoder (YAML) are generated only with composition-free schemas (whether a default set inside a discarded oneOf/anyOf candidate triggers the re-encoding — which then fails — is not modelled; the JSON family tolerates an unnecessary re-encoding: same value)",
+			"under a YAML media type only JSON texts are sent (the YAML decoder reads a JSON text as the same value: trusted); a re-encoded YAML body is compared as a value",
 			"parameters described by content have scalar schemas and the single media type application/json",
 		},
 	})
@@ -412,6 +415,9 @@ func runC13(c0 hx.Case) any {
 			default:
 				obs["body"] = "new"
 				if cj, ok := canonJSON(b); ok {
+					obs["json"] = cj
+				} else if jb, yerr := yaml.YAMLToJSON(b); yerr == nil && strings.Contains(jstr(c, "ctype"), "yaml") {
+					cj, _ := canonJSON(jb) // a YAML body that was re-encoded as YAML: compared as a value
 					obs["json"] = cj
 				} else {
 					obs["json"] = "not-json:" + string(b)
